@@ -7,6 +7,7 @@
 (*   Crash(b, phase)             the process died inside Deliver(b)        *)
 (*                               (phase "deliver") or inside the recovery  *)
 (*                               (phase "recover") before some store write *)
+(*   Stop                        the process stopped at a quiescent point  *)
 (*   Restart(state)              a fresh process re-ran the chain          *)
 (*                               initialisation over the same stores       *)
 (*   End                                                                    *)
@@ -42,7 +43,8 @@ Obs(t, ids, o, fut, ver, r) ==
    latest   |-> o.latest,
    future   |-> fut, verified |-> ver,
    pending  |-> {ids[i] : i \in {j \in 1..Len(ids) : o.pending[j]}},
-   todo |-> <<>>, res |-> r, fork |-> <<>>, sub |-> "none"]
+   todo |-> <<>>, res |-> r, fork |-> <<>>, sub |-> "none",
+   cache    |-> [h \in 0..(MaxH(t) + 1) |-> o.cache[h + 1]]]
 
 Tag(c, t) == IF c THEN <<>> ELSE <<t>>
 
@@ -54,10 +56,13 @@ JudgeInv(t, s, o) ==
   Tag(HeadStateDurable(t, s), "Inv.HeadStateDurable") \o
   Tag(HeadRecorded(t, s), "Inv.HeadRecorded") \o
   Tag(ExecutedAgrees(t, s), "Inv.ExecutedAgrees") \o
+  (* the LRU in front of the height index never contradicts it *)
+  Tag(CacheCoherent(t, s), "Inv.CacheCoherent") \o
   (* the exported queries (which go through the in-memory caches) agree with the chain *)
-  Tag(\A b \in Canon(t, s) : o.apiBlock[Hgt(t, b) + 1] = b /\ o.apiHash[Hgt(t, b) + 1] = b /\ o.byHash[b + 1],
+  (* (not asked right after the restart of a reader scenario: o.apiSkipped) *)
+  Tag(o.apiSkipped \/ \A b \in Canon(t, s) : o.apiBlock[Hgt(t, b) + 1] = b /\ o.apiHash[Hgt(t, b) + 1] = b /\ o.byHash[b + 1],
       "Inv.ApiReturnsChain") \o
-  Tag(\A h \in 0..(MaxH(t) + 1) : h > Hgt(t, s.latest) => (o.apiBlock[h + 1] = None /\ o.apiHash[h + 1] = None),
+  Tag(o.apiSkipped \/ \A h \in 0..(MaxH(t) + 1) : h > Hgt(t, s.latest) => (o.apiBlock[h + 1] = None /\ o.apiHash[h + 1] = None),
       "Inv.ApiNothingAboveHead")
 
 Same(a, b) == /\ a.hashDB = b.hashDB /\ a.hidx = b.hidx /\ a.headRec = b.headRec /\ a.latest = b.latest
@@ -73,12 +78,14 @@ JudgeDeliver(e) ==
       Tag(NotLower(tr, obs.latest, pre.latest), "Inv.WeightMonotone") \o
       Tag(\A x \in removed : (TxsOf(tr, x) \ obs.executed) \subseteq obs.pending, "Inv.RemovedTxsPending") \o
       Tag(~e.state.addMark /\ ~e.state.rmMark, "Model.MarksLeft") \o
+      Tag(Ended(exp), "Model.diverges") \o
       Tag(e.res = exp.res, "Deliver.res") \o
       Tag(obs.hashDB = exp.hashDB, "Deliver.hashDB") \o
       Tag(obs.hidx = exp.hidx, "Deliver.hidx") \o
       Tag(obs.latest = exp.latest /\ obs.headRec = exp.headRec, "Deliver.head") \o
       Tag(obs.executed = exp.executed, "Deliver.executed") \o
       Tag(obs.pending = exp.pending, "Deliver.pending") \o
+      Tag(obs.cache = exp.cache, "Deliver.cache") \o
       Tag((obs.stateDisk \cap obs.hashDB) = (exp.stateDisk \cap exp.hashDB), "Deliver.stateDisk")
 
 (* fork switch of the sync processor (extension beyond C05's quantifier: the store clauses are
@@ -91,10 +98,12 @@ JudgeFork(e) ==
   IN  JudgeInv(tr, obs, e.state) \o
       Tag(NotLower(tr, obs.latest, ms.latest), "Ext.WeightMonotone.fork-path") \o
       Tag(~e.state.addMark /\ ~e.state.rmMark, "Model.MarksLeft") \o
+      Tag(Ended(exp), "Model.diverges") \o
       Tag(obs.hashDB = exp.hashDB, "Fork.hashDB") \o
       Tag(obs.hidx = exp.hidx, "Fork.hidx") \o
       Tag(obs.latest = exp.latest /\ obs.headRec = exp.headRec, "Fork.head") \o
       Tag(obs.executed = exp.executed, "Fork.executed") \o
+      Tag(obs.cache = exp.cache, "Fork.cache") \o
       Tag((obs.stateDisk \cap obs.hashDB) = (exp.stateDisk \cap exp.hashDB), "Fork.stateDisk")
 
 CallBegin(e) ==      \* the state right after the call started (Crash / Died events)
@@ -112,6 +121,7 @@ JudgeRestart(e) ==
       obs == Obs(tr, txIds, e.state, [i \in Ids0(tr) |-> None], {}, "none")
   IN  JudgeInv(tr, obs, e.state) \o
       Tag(\E o \in outcomes : Same(o, obs), "Crash.outcome-not-in-model") \o
+      Tag(\E o \in outcomes : Same(o, obs) /\ o.cache = obs.cache, "Restart.cache") \o
       Tag(~e.state.addMark /\ ~e.state.rmMark, "Model.MarksLeft") \o
       (IF obs.latest \in CrashHeadStrict(tr, cheads) THEN <<>>
        ELSE IF obs.latest \in CrashHeadWeak(tr, cheads) THEN <<"Crash.HeadStrict.ancestor-of-old-head">>
@@ -149,6 +159,9 @@ TraceNext ==
             [] e.event \in {"Crash", "Died"} ->
                  /\ pend' = CrashStates(e)
                  /\ cheads' = IF e.phase = "deliver" THEN HeadsOfCall(tr, CallBegin(e)) ELSE cheads
+                 /\ UNCHANGED <<tr, txIds, ms>>
+            [] e.event = "Stop" ->      \* a clean stop at a quiescent point: the next event is a Restart
+                 /\ pend' = {ms} /\ cheads' = <<ms.latest>>
                  /\ UNCHANGED <<tr, txIds, ms>>
             [] e.event = "Restart" ->
                  /\ ms' = Obs(tr, txIds, e.state, [i \in Ids0(tr) |-> None], {}, "none")
